@@ -1,0 +1,26 @@
+//go:build verif
+
+package vgirpc
+
+import "github.com/apache/arrow-go/v18/arrow"
+
+// Verification hooks (build tag "verif") for property C21 (native HTTP client
+// stream). Add-only; nothing here is compiled into normal builds.
+
+// VerifC21State exposes the private cursor state of a client stream: the
+// continuation cursor it would send next, the call token, and the lifecycle
+// flags with the number of locally buffered batches.
+func (s *HttpClientStream) VerifC21State() (token, callToken string, finished, closed bool, pending int) {
+	return s.token, s.callToken, s.finished, s.closed, len(s.pending)
+}
+
+// VerifC21MethodSchemas returns the schemas a registered method declares
+// (params, unary result, stream output, stream input, stream header); nil
+// where the method has none. ok is false for an unknown method.
+func VerifC21MethodSchemas(s *Server, method string) (params, result, output, input, header *arrow.Schema, ok bool) {
+	info, found := s.methods[method]
+	if !found {
+		return nil, nil, nil, nil, nil, false
+	}
+	return info.ParamsSchema, info.ResultSchema, info.OutputSchema, info.InputSchema, info.HeaderSchema, true
+}
